@@ -182,6 +182,8 @@ def run_check(prop, tier, seed):
             n_replayed += nt
             rp.count("b2_traces_recorded_from_code", nt)
             rp.count("b2_events_validated", ne)
+            for ck, cv in b2.counters.items():
+                rp.count("b2_" + ck, cv)
             rp.calls += ne
             samples.append({"instance": "B2 recorded trace", "events": nt and ne})
             for mm, b in mms:
